@@ -4,7 +4,8 @@ Decided by Barril/Props/C16.lean: generic theorems (any database with unique sym
 "legacy spelling l / current symbol c") for GetInfo, Convert (numbers and lists), GetDefaultCategory,
 Quantity/ObtainQuantity, value-object creation (with a value and WITHOUT one: the default value of the category
 converted to the unit, in categories registered with non-zero default value and limits), GetValue/GetValues,
-CreateCopy (numbers and lists), GetUnitName and AddCategory (with default value and limits), plus
+CreateCopy (numbers and lists), GetUnitName and AddCategory (with default value and limits), the composing-mapping
+forms of ObtainQuantity (dict / parallel lists with one entry of exponent 1 = the plain form; otherwise no legacy handling), plus
 generated `decide +kernel` table theorems (no symbol is rewritten; every derived spelling is rewritten to
 its symbol and is a fixed point afterwards; symbols unique; categories named like a type belong to it)
 over the rows and the substitution list read from the current source.
@@ -33,6 +34,10 @@ RULE = ("exhaustive part: FixUnitIfIsLegacy on every symbol of the three self-bu
         "FractionScalar/Array/FixedArray created WITHOUT a value in both spellings (then read in a third unit) and "
         "Scalar/FractionScalar.CreateCopy(unit=) / ChangeScalars; GetUnitName, GetFormattedValue/GetFormatted(unit), Array/FixedArray."
         "CreateCopy(unit=), FixedArray / Scalar((v,u)) / Scalar(cat,v,u) / FractionScalar(cat,v,u) construction; "
+        "the composing-mapping forms of ObtainQuantity - {category: [unit, exp]} as OrderedDict/dict with list/tuple cells and "
+        "the parallel lists [(unit, exp)], category (list/tuple/str/None/empty) - with ONE entry of exponent 1 in both spellings "
+        "(own categories, a foreign and an unknown one) and, for both spellings, with other exponents, two or three entries, "
+        "zip-truncated and duplicate category lists, junk cells and the empty mapping; "
         "seeded part: strings glued from legacy/current fragments, "
         "symbol pieces and noise through the rewrite, junk units and categories through every entry; "
         "distinct = distinct model line; non-trivial = the case contains a string that FixUnitIfIsLegacy rewrites")
@@ -46,6 +51,11 @@ ASSUMPTIONS = [
     "GetFormatted(unit): the number is predicted by the model of GetValue and the formatted VALUE is compared between "
     "the spellings; the suffix echoes the unit argument as written and is not compared; FractionScalar values have "
     "a zero fractional part",
+    "composing-mapping forms of ObtainQuantity: run on a cold quantities_cache (cleared before the call on the private "
+    "database; a warm cache answers before the mapping class is looked at - C07/C15's subject); cells are (str, int); a "
+    "derived result is compared through GetComposingCategories/GetComposingUnits (its category/unit STRINGS are C05's); in a "
+    "really composing mapping the library rejects legacy spellings (CheckQuantityTypeUnit, fix_legacy=False): modelled and "
+    "proved (`obtainFromMapping_rejects_legacy`), the oracle speaks for the one-entry exponent-1 form only",
     "a legacy fragment that is the empty string is not modelled (str.replace('', x) inserts everywhere)",
 ]
 KINDS = ("posc", "nocat", "simple")
@@ -88,9 +98,13 @@ def _case(op, **t):
     """t holds Python values; the model line is derived from it"""
     line = dict(op=op)
     for k, v in t.items():
-        if k in ("pair", "form", "container", "fresh", "tag", "via"):
+        if k in ("pair", "form", "container", "fresh", "tag", "via", "shape"):
             continue
-        if k in ("x",):
+        if k == "cells":  # composing mapping: [category | None, unit, exponent]
+            line[k] = [dict(unit=_s(u), exp=str(int(e)), **({} if c is None else dict(cat=_s(c)))) for c, u, e in v]
+        elif k == "catarg":  # None, a string, or a list of strings
+            line[k] = [_s(x) for x in v] if isinstance(v, (list, tuple)) else _s(v)
+        elif k in ("x",):
             line[k] = qstr(exact(v))
         elif k == "xs":
             line[k] = [qstr(exact(x)) for x in v]
@@ -106,9 +120,9 @@ def _case(op, **t):
             line[k] = v
         else:
             line[k] = _s(v)
-    for k in ("form", "container", "tag", "via"):
+    for k in ("form", "container", "tag", "via", "shape"):
         if k in t:
-            line[k] = t[k]  # ignored by the driver; keeps distinct cases distinct
+            line[k] = t[k]  # ignored by the driver (except shape); keeps distinct cases distinct
     line["_t"] = t
     return line
 
@@ -320,6 +334,57 @@ def _more_entry_cases(ctx, kind, pairs, rng, wide):
                                     container=rng.choice(["list", "tuple", "ndarray"]), pair=p)
 
 
+def _map_cases(ctx, kind, pairs, rng, wide):
+    """the composing-mapping forms of ObtainQuantity: {category: [unit, exp]} (OrderedDict / dict, list / tuple cells)
+    and the parallel lists [(unit, exp)], [category]; one entry of exponent 1 is the plain (unit, category) form and
+    so a unit-string entry point; everything else is validated WITHOUT legacy handling and becomes a derived quantity"""
+    db = ctx.dbs[kind]
+    types = sorted(db.quantity_types)
+    allcats = sorted(db.categories_to_quantity_types)
+    for l, c in pairs:
+        qt = db.unit_to_unit_info[c].quantity_type
+        cats = ctx.cats_of_type[kind].get(qt, [])
+        defcat = db.GetDefaultCategory(c)
+        own = ([defcat] if defcat else []) + [x for x in cats if x != defcat][:(3 if wide else 1)] or [qt]
+        foreign_t = rng.choice([t for t in types if t != qt])
+        foreign_c = (ctx.cats_of_type[kind].get(foreign_t) or [foreign_t])[0]
+        second = rng.choice([x for x in allcats if x not in own] or [foreign_c])
+        try:
+            second_u = db.GetDefaultUnit(second)
+        except Exception:
+            second_u = "m"
+        cells_kinds = [("odict", "listcell"), ("dict", "tuplecell")] + ([("odict", "tuplecell"), ("dict", "listcell")] if wide else [])
+        for u in (l, c):
+            p = [l, c] if u == l else None
+            # the simple case: ONE entry of exponent 1
+            for cat in own + [foreign_c, "no such category"]:
+                for shape, cont in cells_kinds:
+                    yield _case("obtainmap", db=kind, shape=shape, container=cont, cells=[[cat, u, 1]], pair=p)
+            cat = own[0]
+            for catarg, cont in [([cat], "list"), ((cat,), "tuple"), (cat, "list"), (None, "tuple"), ([], "list"),
+                                 ([cat, foreign_c], "list"), (["no such category"], "tuple"), ([foreign_c], "list")]:
+                yield _case("obtainmap", db=kind, shape="lists", container=cont, cells=[[None, u, 1]], catarg=catarg, pair=p)
+            # really composing (or not exponent 1): no legacy handling there, for either spelling; the oracle is silent
+            e = rng.choice([2, -1, 3, 0, -2])
+            two = [[cat, u, rng.choice([1, 1, 2, -1])], [second, second_u, rng.choice([-1, 1, -2])]]
+            if rng.random() < 0.5:
+                two.reverse()
+            for shape, cont in cells_kinds[:2]:
+                yield _case("obtainmap", db=kind, shape=shape, container=cont, cells=[[cat, u, e]])
+                yield _case("obtainmap", db=kind, shape=shape, container=cont, cells=two)
+            yield _case("obtainmap", db=kind, shape=rng.choice(["odict", "dict"]), container="listcell",
+                        cells=[[second, second_u, 1], [cat, u, 1], [foreign_c, rng.choice(["nope", u]), 1]][:rng.choice([2, 3])])
+            pairs2 = [[None, x[1], x[2]] for x in two]
+            cats2 = [x[0] for x in two]
+            for catarg, cont in [(cats2, "list"), (tuple(cats2), "tuple"), (cats2[:1], "list"), ([cat, cat], "list"),
+                                 (cat, "list"), (None, "list"), (["no such category", second], "list")]:
+                yield _case("obtainmap", db=kind, shape="lists", container=cont, cells=pairs2, catarg=catarg)
+            yield _case("obtainmap", db=kind, shape="lists", container="list", cells=[[None, u, e]],
+                        catarg=rng.choice([[cat], cat, None, []]))
+    for shape in ("odict", "dict", "lists"):
+        yield _case("obtainmap", db=kind, shape=shape, container="listcell", cells=[], catarg=[] if shape == "lists" else None)
+
+
 def _both_legacy(ctx, kind, rng, n):
     """conversions with two legacy-spelled units of one type"""
     db = ctx.dbs[kind]
@@ -389,6 +454,9 @@ def _all_cases(ctx, tier, salt):
     for k in KINDS:
         yield from _valueless_cases(ctx, k, ctx.pairs[k], rng2, thorough)
         yield from _more_entry_cases(ctx, k, ctx.pairs[k], rng2, thorough)
+    rng3 = ctx.fresh_rng("C16map" + salt)
+    for k in KINDS:
+        yield from _map_cases(ctx, k, ctx.pairs[k], rng3, thorough)
     yield from _junk_cases(ctx, ctx.fresh_rng("C16junk" + salt), 4000 if thorough else 600)
 
 
@@ -545,6 +613,26 @@ def _run(op, t, ctx):
                 return dict(cat=o.GetCategory(), unit=o.GetUnit(), obj=o, val_ok=(float(o.GetValue()) == 1.5))
             o = FractionScalar(1.5, t["unit"], t["cat"]) if t["cat"] is not None else FractionScalar(1.5, t["unit"])
             return dict(cat=o.GetCategory(), unit=o.GetUnit(), obj=o, val_ok=(float(o.GetValue()) == 1.5))
+        if op == "obtainmap":
+            from collections import OrderedDict
+
+            # cold cache: the model has none, and a warm quantities_cache answers before the mapping is looked at
+            db.quantities_cache.clear()
+            cell = tuple if t["container"] in ("tuplecell", "tuple") else list
+            if t["shape"] == "lists":
+                units = [(u, e) for _, u, e in t["cells"]]
+                cat = t["catarg"]
+                if t["container"] == "tuple":
+                    units = tuple(units)
+                q = ObtainQuantity(units, cat)
+            elif t["shape"] == "odict":
+                q = ObtainQuantity(OrderedDict((c, cell([u, e])) for c, u, e in t["cells"]))
+            else:
+                q = ObtainQuantity({c: cell([u, e]) for c, u, e in t["cells"]})
+            if q.IsDerived():
+                return dict(derived=True, cats=list(q.GetComposingCategories()), units=[list(x) for x in q.GetComposingUnits()],
+                            cat=q.GetCategory(), unit=q.GetUnit(), obj=q)
+            return dict(derived=False, cat=q.GetCategory(), unit=q.GetUnit(), obj=q)
         if op == "getvalue":
             s = _source(Scalar, t["x"], t)
             return dict(x=float(s.GetValue(t["to"])))
@@ -621,6 +709,11 @@ def _canon(op, r):
         return dict(ok=[float(v).hex() for v in r["xs"]])
     if op == "obtain":
         return dict(ok=dict(cat=_s(r["cat"]), unit=_s(r["unit"])), val_ok=r.get("val_ok", True))
+    if op == "obtainmap":
+        if r["derived"]:
+            return dict(ok=dict(kind="derived", cells=[[_s(c), _s(u), str(int(e))] for c, (u, e) in zip(r["cats"], r["units"])]),
+                        n_ok=len(r["cats"]) == len(r["units"]))
+        return dict(ok=dict(kind="simple", cat=_s(r["cat"]), unit=_s(r["unit"])), n_ok=True)
     if op == "copy":
         return dict(ok=dict(cat=_s(r["cat"]), unit=_s(r["unit"]), x=float(r["x"]).hex()))
     if op == "addcat":
@@ -735,6 +828,10 @@ def agree(c, io, mo, ctx):
             return "the value was not stored as given"
         return None if a == b else "quantity differs: impl=(%s,%s) model=(%s,%s)" % (
             unsym(int(a["cat"])), unsym(int(a["unit"])), unsym(int(b["cat"])), unsym(int(b["unit"])))
+    if op == "obtainmap":
+        if not io.get("n_ok", True):
+            return "composing categories and composing units of different lengths"
+        return None if a == b else "quantity from the mapping differs: impl=%s model=%s" % (dumps(a)[:300], dumps(b)[:300])
     if op == "copy":
         if a["cat"] != b["cat"] or a["unit"] != b["unit"]:
             return "copy quantity differs"
@@ -748,7 +845,7 @@ def nontrivial(c, io):
     from barril.units.unit_database import FixUnitIfIsLegacy
 
     t = c["_t"]
-    vals = [t.get(k) for k in UNIT_FIELDS] + list(t.get("valid") or [])
+    vals = [t.get(k) for k in UNIT_FIELDS] + list(t.get("valid") or []) + [x[1] for x in t.get("cells") or []]
     return any(isinstance(v, str) and FixUnitIfIsLegacy(v)[0] for v in vals) or c["op"] == "derive"
 
 
@@ -760,6 +857,8 @@ def _subst(t, l, c):
             t2[k] = c
     if t2.get("valid") is not None:
         t2["valid"] = [c if v == l else v for v in t2["valid"]]
+    if t2.get("cells") is not None:
+        t2["cells"] = [[a, c if u == l else u, e] for a, u, e in t2["cells"]]
     return t2
 
 
@@ -781,6 +880,9 @@ def _same(op, rl, rc):
         if "val_ok" in rl and not rl["val_ok"]:
             return False
         return rl["obj"] == rc["obj"] and rl["unit"] == rc["unit"] and rl["cat"] == rc["cat"]
+    if op == "obtainmap":  # the equal quantity: same object class of equality, hash, category, unit, derivedness
+        return (rl["obj"] == rc["obj"] and hash(rl["obj"]) == hash(rc["obj"]) and rl["unit"] == rc["unit"]
+                and rl["cat"] == rc["cat"] and rl["derived"] == rc["derived"])
     if op in ("copy", "regcopy"):
         return rl["unit"] == rc["unit"] and rl["cat"] == rc["cat"] and _near(rl["x"], rc["x"])
     if op == "copyl":
@@ -885,6 +987,22 @@ def oracle(c, ctx):
     except Exception as e:
         return dict(clause="a legacy spelling is accepted wherever the current one is", entry=op,
                     case={k: v for k, v in t.items() if k != "pair"}, legacy=l, current=cur, error=repr(e)[:300])
+    if op == "obtainmap" and t["shape"] != "lists" and len(t["cells"]) == 1:
+        from barril.units import ObtainQuantity
+        from barril.units.unit_database import UnitDatabase
+
+        UnitDatabase.PushSingleton(ctx.dbs[t["db"]])
+        try:
+            try:
+                plain = ObtainQuantity(cur, t["cells"][0][0])
+            except Exception:
+                plain = None
+        finally:
+            UnitDatabase.PopSingleton()
+        if plain is not None and not (rl["obj"] == plain and hash(rl["obj"]) == hash(plain) and not rl["derived"]):
+            return dict(clause="a one-entry mapping with a legacy spelling gives the quantity of ObtainQuantity(current, category)",
+                        entry=op, case={k: v for k, v in t.items() if k != "pair"}, legacy=l, current=cur,
+                        with_legacy={k: repr(v)[:200] for k, v in rl.items()}, plain=repr(plain)[:200])
     if op == "addcat":
         rl, rc = dict(rl), dict(rc)
         for r in (rl, rc):
